@@ -39,10 +39,22 @@ def pick_version(log, rnd):
     return rnd.choice(LEGACY_VERSIONS)
 
 
-def add_codec(log, rnd):
+def add_codec(log, rnd, coord=None):
     out = []
+    # producer epochs: in about half of the logs every abort is a coordinator-side abort (transaction time-out, or InitProducerId
+    # while a transaction is open): Kafka bumps the epoch and writes the ABORT marker with epoch+1; the producer's later
+    # transactions carry the new epoch. In the other logs the marker carries the epoch of the data it ends.
+    if coord is None:
+        coord = rnd.random() < 0.5
+    epochs = {}
     for b in log:
         b = dict(b)
+        if b.get("pid", -1) >= 0 and b["fmt"] == "v2":
+            e = epochs.get(b["pid"], 0)
+            if b["ctl"] == "abort" and coord:
+                e += 1
+                epochs[b["pid"]] = e
+            b["epoch"] = e
         if b["fmt"] in ("v0w", "v1w"):
             b["codec"] = rnd.choice([1, 2])          # gzip, snappy
         elif b["fmt"] == "v2" and not b["ctl"]:
